@@ -63,12 +63,16 @@ void _do_assert(char *str, char *file, int line)
 #if defined(V_STUB_CTYPE_C_LOCALE) && !defined(NATIVE_REPLAY)
 /* <ctype.h> in the "C" locale, by range arithmetic.  CBMC 6.11's built-in models are imprecise outside the
  * letters (its tolower(16) is 32), which produced a false alarm; the native replay uses the real libc. */
-int (isdigit)(int c) { return c >= '0' && c <= '9'; }
-int (isalpha)(int c) { return (c >= 'A' && c <= 'Z') || (c >= 'a' && c <= 'z'); }
-int (isupper)(int c) { return c >= 'A' && c <= 'Z'; }
-int (islower)(int c) { return c >= 'a' && c <= 'z'; }
-int (isalnum)(int c) { return (c >= '0' && c <= '9') || (c >= 'A' && c <= 'Z') || (c >= 'a' && c <= 'z'); }
-int (isspace)(int c) { return c == ' ' || (c >= 9 && c <= 13); }
+/* classification functions return SOME non-zero value for "true" (C99 7.4.1: "nonzero"; glibc returns the class bit,
+ * e.g. 2048 for isdigit) -- code that stores the raw result as a boolean 0/1 is wrong and must be seen to be */
+int nondet_v_ctype(void);
+static int v_ctype_true(void) { int v = nondet_v_ctype(); __CPROVER_assume(v != 0); return v; }
+int (isdigit)(int c) { return (c >= '0' && c <= '9') ? v_ctype_true() : 0; }
+int (isalpha)(int c) { return ((c >= 'A' && c <= 'Z') || (c >= 'a' && c <= 'z')) ? v_ctype_true() : 0; }
+int (isupper)(int c) { return (c >= 'A' && c <= 'Z') ? v_ctype_true() : 0; }
+int (islower)(int c) { return (c >= 'a' && c <= 'z') ? v_ctype_true() : 0; }
+int (isalnum)(int c) { return ((c >= '0' && c <= '9') || (c >= 'A' && c <= 'Z') || (c >= 'a' && c <= 'z')) ? v_ctype_true() : 0; }
+int (isspace)(int c) { return (c == ' ' || (c >= 9 && c <= 13)) ? v_ctype_true() : 0; }
 int (tolower)(int c) { return (c >= 'A' && c <= 'Z') ? c + ('a' - 'A') : c; }
 int (toupper)(int c) { return (c >= 'a' && c <= 'z') ? c - ('a' - 'A') : c; }
 #endif
